@@ -32,6 +32,14 @@ CLAIMED['C15'] = ('Coq theorems over Model/Delayed.v (dispatcher with a growing 
          'proof: every creator is evaluated at most once in any run (any table, selection, fuel) and only after a final event of its `executed` task; created tasks become ordinary table entries; regex-target selection / found / missing cases (partial: progress and exactness of the executed set are checked by the oracle only); K3 (unknown delayed sub-task accepted) refuted by witness and recorded as known finding',
          'trusted: Coq kernel; hand model Model/Delayed.v tied by 210 (quick) / 2400 (thorough) cases against the real loader, TaskControl.process and serial Runner (+ MThreadRunner and DoitMain samples judged by the oracle); creators are data (result of generate_tasks), string operations and Dependency are oracles; init_ok of the selected state is evaluated per case rather than proved in general',
          'DESIGN.md 5-C15')
+CLAIMED['C03'] = ('Coq invariant proof over ALL operation histories of Model/Status.v + History.v (db_reflects_ghost: every DB record encodes what the last successful execution saw) => up-to-date soundness + correspondence against the real Dependency on json/dbm/sqlite3 with both checkers',
+         'proof: for every finite history over {write, touch, delete, change definition, change checker, successful execution, failure/forget, ignore, reset-dep, forget-all, check} (fresh mtimes), whenever get_status answers up-to-date the task has a last successful execution whose file_dep set, checker and per-file state (by the configured checker rule) equal the present ones, all targets exist, no uptodate item is false and it has a file_dep or an evaluated item; same in get_log mode; FS-fresh shown necessary by a refuted companion; the two repaired defects kept as legacy-refuted witnesses',
+         'trusted: Coq kernel; hand model tied by 1032 (quick) / 7896 (thorough) cases: random histories x 3 backends x 2 checkers against Dependency.get_status/save_success/remove_success + end-to-end DoitMain sample; md5 and file sizes are oracles (no injectivity assumed); uptodate callables/shell commands are opaque oracle values; hypothesis FS-fresh (a write never keeps the mtime)',
+         'DESIGN.md 5-C03')
+CLAIMED['C04'] = ('Coq proofs over Model/Status.v + History.v: converse of C03 (completeness of up-to-date), idempotent re-run, md5 insensitivity to touch/same-content rewrite + correspondence (shared with C03)',
+         'proof: if since its last successful execution nothing listed in the documented conditions changed, get_status answers up-to-date and the runner model does not execute the task; after run_all of any task list from any history a second run executes exactly the tasks with a false uptodate item or without file_dep and evaluated item; under md5 a touch or same-content rewrite leaves get_status unchanged; FS-fresh necessity witnessed',
+         'trusted: as C03 (same models, same correspondence run); serial runner decision modelled by run_task (select_task + result processing, no setup-tasks)',
+         'DESIGN.md 5-C04')
 NOT_YET = {}
 
 def main():
